@@ -349,6 +349,9 @@ class Check:
                 new.append(v)
         lines = []
         exit_code = 0
+        import glob
+        for stale in glob.glob(os.path.join(ROOT, 'replays', '{}_{}_*.json'.format(self.pid, self.tier))):
+            os.remove(stale)
         for hit, v in self.known_hits:
             lines.append('KNOWN-FINDING: property={} {} [{}]'.format(
                 self.pid, hit.get('what', v['what']), v['signature']))
